@@ -572,6 +572,10 @@ def propSetAtoms (o : Nat) (ix : Option Index) (src : Nat) : M Unit :=
 
 def zerosLike (v : Val) : Val := ⟨v.dt, v.shape, List.replicate (prod v.shape) (zeroCell v.dt)⟩
 
+/-- `np.zeros((natoms,) + np.shape(value), dtype=np.asarray(value).dtype)`: `n` rows of zeros, each shaped like one
+    per-atom value. -/
+def zerosRows (n : Nat) (v : Val) : Val := ⟨v.dt, n :: v.shape, List.replicate (n * prod v.shape) (zeroCell v.dt)⟩
+
 /-- `prop_atype`. -/
 def propAtype (o : Nat) (key : String) (v : Val) (t : Option Int) : M Unit := do
   let s ← getS
@@ -595,7 +599,7 @@ def propAtype (o : Nat) (key : String) (v : Val) (t : Option Int) : M Unit := do
     if arrTrail s ta ≠ [] then fail .unmodelled else
     (match (s.obj o).find key with
       | some _ => pure ()
-      | none => viewSet o key (.lit (zerosLike v)) : M Unit)
+      | none => viewSet o key (.lit (zerosRows (s.obj o).natoms v)) : M Unit)
     atypeGuard key v
     let s' ← getS
     let a ← keyErr ((s'.obj o).find key)
@@ -834,6 +838,23 @@ def sysDeepcopy (i : Nat) : M (Nat × Nat) := do
   let j ← pushSys { y with atoms := a }
   pure (a, j)
 
+/-- `System(atoms=…, box=…, pbc=…, scale=…, symbols=…, masses=…, safecopy=…)` with the two flags the plain `mkSys`
+    leaves out: `safecopy=True` builds the system on `deepcopy(atoms)`; `scale=True` ends the constructor with
+    `self.atoms_prop('pos', value=self.atoms.pos, scale=True)`, i.e. the positions handed in are box-relative and are
+    overwritten IN PLACE by their Cartesian image (without `safecopy` these are the caller's atoms).
+    Returns (atoms id the system is built on, system id). -/
+def mkSysX (o : Nat) (box : Box Rat) (pbc : List Bool) (symbols : Option (List (Option String)))
+    (masses : Option (List (Option Rat))) (scale safecopy : Bool) : M (Nat × Nat) :=
+  atomic do
+    let a ← (if safecopy then deepcopy o else pure o : M Nat)
+    let i ← mkSys a box pbc symbols masses
+    (if scale then do
+      let s ← getS
+      let pa ← keyErr ((s.obj a).find "pos")
+      sysPropSetScaled i "pos" none (arrVal s pa)
+     else pure () : M Unit)
+    pure (a, i)
+
 /-- `_AtomsIndexer.__getitem__`: returns (new atoms id, new system id). -/
 def ixGet (i : Nat) (ix : Index) : M (Nat × Nat) := do
   let s ← getS
@@ -889,6 +910,8 @@ inductive Op where
   | natypes (o : Nat)
   | mkSys (o : Nat) (box : Box Rat) (pbc : List Bool) (symbols : Option (List (Option String)))
       (masses : Option (List (Option Rat)))
+  | mkSysX (o : Nat) (box : Box Rat) (pbc : List Bool) (symbols : Option (List (Option String)))
+      (masses : Option (List (Option Rat))) (scale safecopy : Bool)
   | symbolsGet (i : Nat)
   | symbolsSet (i : Nat) (l : List (Option String))
   | massesGet (i : Nat)
@@ -935,7 +958,7 @@ def Op.idsOk (s : State) : Op → Bool
   | .new .. => true
   | .setView o .. | .propGet o .. | .propKeys o | .propGetAtoms o .. | .propSet o ..
   | .getItem o .. | .propAtype o .. | .extendInt o .. | .deepcopy o | .natypes o
-  | .mkSys o .. => decide (o < s.objs.length)
+  | .mkSys o .. | .mkSysX o .. => decide (o < s.objs.length)
   | .propSetAtoms o _ src | .setItem o _ src | .extendAtoms o src =>
     decide (o < s.objs.length) && decide (src < s.objs.length)
   | .symbolsGet i | .symbolsSet i _ | .massesGet i | .massesSet i _ | .pbcSet i _ | .sysNatypes i
@@ -970,6 +993,7 @@ def run (offsetDonor : Bool) : Op → M Out
   | .deepcopy o => do let r ← deepcopy o; pure (.obj r)
   | .natypes o => do let n ← natypes o; pure (.nat n)
   | .mkSys o box pbc sy ms => do let i ← mkSys o box pbc sy ms; pure (.objSys o i)
+  | .mkSysX o box pbc sy ms sc cp => do let r ← mkSysX o box pbc sy ms sc cp; pure (.objSys r.1 r.2)
   | .symbolsGet i => do let l ← symbolsGet i; pure (.syms l)
   | .symbolsSet i l => do symbolsSet i l; pure .unit
   | .massesGet i => do let l ← massesGet i; pure (.masses l)
